@@ -6,6 +6,8 @@ import (
 	"encoding/hex"
 	"encoding/json"
 	"fmt"
+	"github.com/corestario/kyber/pairing"
+	"github.com/corestario/kyber/pairing/bls12381"
 	spf "github.com/lidofinance/dc4bc/fsm/state_machines/signature_proposal_fsm"
 	"os"
 	"path/filepath"
@@ -23,7 +25,7 @@ import (
 // recursively. Searching raw bytes in all of these covers every alignment of
 // the usual encodings.
 func blobsOf(data []byte, depth int, out *[][]byte, seen map[string]bool) {
-	if depth > 5 || len(data) < 8 {
+	if depth > 8 || len(data) < 8 {
 		return
 	}
 	k := string(data)
@@ -166,6 +168,31 @@ func taintScan(w *World, airs []*AirNode) (nsecrets, nblobs, noutputs int) {
 			}
 		}
 	}
+	// a secret need not appear to leave: two Schnorr signatures (kyber signs deals and
+	// responses with the machine's long-term key: commitment R, then s = k + h*x) that share R but not s were made with one nonce k for two messages, and
+	// x = (s1-s2)/(h1-h2) is the long-term private key for whoever holds both
+	byR := map[string]map[string]bool{}
+	nsig := 0
+	g1 := bls12381.NewBLS12381Suite(nil).(pairing.Suite).G1()
+	pl := g1.PointLen()
+	for _, b := range blobs {
+		if len(b) != pl+g1.ScalarLen() || g1.Point().UnmarshalBinary(b[:pl]) != nil {
+			continue // not a curve point followed by a scalar
+		}
+		nsig++
+		r, s := string(b[:pl]), string(b[pl:])
+		if byR[r] == nil {
+			byR[r] = map[string]bool{}
+		}
+		byR[r][s] = true
+	}
+	for r, ss := range byR {
+		if len(ss) > 1 {
+			w.Fail("C04", "private-key-computable-from-outputs/schnorr-nonce-used-for-two-messages", fmt.Sprintf("%d different signatures in result files / board messages share the nonce commitment %x…: the signer's long-term private key follows from any two of them", len(ss), r[:8]))
+			break
+		}
+	}
+	w.Stats.ProbeN("schnorr-signatures-compared", nsig)
 	w.Stats.ProbeN("secrets-searched", nsecrets)
 	w.Stats.ProbeN("blobs-scanned", len(blobs))
 	return nsecrets, len(blobs), len(outputs)
@@ -253,6 +280,20 @@ func runC04(w *World, tier string) (bool, interface{}) {
 		}
 	} else {
 		c.L.RunUntil(func() bool { return false }, w.Tape.Choose(15*n, "gap"))
+	}
+	if !interleaved && w.Tape.Bool(1, 2, "machinesRestartedBetweenRounds") {
+		// the machines are switched off after the first ceremony and, for the second one,
+		// switched on again the prescribed way (password, replay of the finished round's
+		// log): what the replay writes into the result folder leaves the machine as well
+		for _, i := range members {
+			if w.Tape.Bool(2, 3, "restartThisMachine") {
+				if err := w.Airs[i].Restart([]string{roundA}); err != nil {
+					w.Fail("C04", "machine-restart-failed", err.Error())
+					return true, nil
+				}
+				w.Stats.Fault("machine-restarted-between-rounds")
+			}
+		}
 	}
 	w.Advance(2e9)
 	roundB, repB := c.StartDKG(membersB[w.Tape.Choose(len(membersB), "proposerB")], tB, membersB)
